@@ -7,6 +7,7 @@ import (
 	"image/color"
 	"math"
 	"os"
+	"reflect"
 	"runtime"
 	"runtime/debug"
 	"sort"
@@ -101,7 +102,8 @@ type c18Pool struct {
 	cregs    *[64]color.RGBA
 	// option values built once per case and shared by every task that decodes
 	// with options (an application keeps such values around and reuses them)
-	opts     []decode.DecodeOption
+	opts     []decode.DecodeOption // a shared option table WITH SPARE CAPACITY: callers spread sub-slices of it into Decode
+	affs     []generate.Aff3       // the same for SetTransform's variadic argument
 	optsDesc string
 	// a configured Generator kept as a template: pipelines take a copy by
 	// value and set their own destination and transform on the copy
@@ -244,8 +246,12 @@ func c18BuildPool(ctx *Ctx, t *tape.Tape) *c18Pool {
 		col = color.RGBA64{uint16(t.Intn(65536)), uint16(t.Intn(65536)), uint16(t.Intn(65536)), 0xffff}
 	}
 	p.tmpl.SetTransform(generate.Scale(2), generate.Translate(-32, -32))
-	p.opts = []decode.DecodeOption{decode.WithPalette(*p.pals[0]), decode.WithColorAt(idx, col)}
-	p.optsDesc = fmt.Sprintf("shared options: WithPalette(pal#0), WithColorAt(%d, %T%v)", idx, col, col)
+	p.opts = append(make([]decode.DecodeOption, 0, 4), decode.WithPalette(*p.pals[0]), decode.WithColorAt(idx, col))
+	if t.Bool() {
+		p.opts = append(p.opts, decode.WithColorAt((idx+1)&63, color.RGBA{0x10, 0x20, 0x30, 0xff}))
+	}
+	p.optsDesc = fmt.Sprintf("shared option table (len %d, cap %d): WithPalette(pal#0), WithColorAt(%d, %T%v), ...", len(p.opts), cap(p.opts), idx, col, col)
+	p.affs = append(make([]generate.Aff3, 0, 4), generate.Scale(float32(1+t.Intn(3))), generate.Translate(float32(t.Range(-16, 16)), float32(t.Range(-16, 16))))
 	return p
 }
 
@@ -261,6 +267,19 @@ func (p *c18Pool) hash() uint64 {
 	}
 	for _, c := range p.cregs {
 		h = fnvAdd(h, uint64(c.R)|uint64(c.G)<<8|uint64(c.B)<<16|uint64(c.A)<<24)
+	}
+	// variadic tables: every slot of the backing array, also beyond len
+	for _, o := range p.opts[:cap(p.opts)] {
+		if o == nil {
+			h = fnvAdd(h, 0)
+		} else {
+			h = fnvAdd(h, uint64(reflect.ValueOf(o).Pointer()))
+		}
+	}
+	for _, a := range p.affs[:cap(p.affs)] {
+		for _, f := range a {
+			h = fnvAdd(h, uint64(float32bits(f)))
+		}
 	}
 	for _, st := range p.rstops {
 		for _, x := range st {
@@ -364,9 +383,11 @@ func c18MakeTask(t *tape.Tape, p *c18Pool) c18Task {
 			return fmt.Sprintf("err=%s %v", errText(err), vb)
 		}}
 	case 5:
-		opts := p.opts
-		if t.Chance(1, 3) {
-			opts = opts[1:]
+		// a sub-slice of the shared table, spread into the variadic parameter:
+		// anything from no option to all of them, the rest being spare capacity
+		opts := p.opts[:t.Intn(len(p.opts)+1)]
+		if t.Chance(1, 4) {
+			opts = p.opts[1:]
 		}
 		return c18Task{name: "decode with the shared option values -> recorder" + suffix, run: func() string {
 			rd := &world.RecDest{}
@@ -432,13 +453,18 @@ func c18MakeTask(t *tape.Tape, p *c18Pool) c18Task {
 		d := world.GenPathData(t, true)
 		sx, tx := float32(1+t.Intn(4)), float32(t.Range(-32, 32))
 		hi := t.Bool()
+		shareAffs, nAffs := t.Chance(1, 3), t.Intn(len(p.affs)+1)
 		return c18Task{name: "copy of a template Generator: SetTransform + SetPathData -> Encoder", run: func() string {
 			var e encode.Encoder
 			e.Reset(ivg.DefaultViewBox, ivg.DefaultPalette)
 			e.HighResolutionCoordinates = hi
 			g := p.tmpl // a by-value copy of the shared, already configured template
 			g.SetDestination(wrap(&e))
-			g.SetTransform(generate.Scale(sx), generate.Translate(tx, -tx))
+			if shareAffs {
+				g.SetTransform(p.affs[:nAffs]...)
+			} else {
+				g.SetTransform(generate.Scale(sx), generate.Translate(tx, -tx))
+			}
 			err := g.SetPathData(d, 0)
 			b, berr := e.Bytes()
 			return fmt.Sprintf("err=%s bytes-err=%s %d bytes %016x", errText(err), errText(berr), len(b), fnv(b))
